@@ -116,9 +116,9 @@ theorem session_sound (e : Env) (hd : Disj e) (file : Bytes) (valid : List Int) 
     (C05.confined e { file := file, pos := 0, valid := valid } lines frags true false rfl rfl).2⟩
 
 /-- a round that transfers anything ends in the state of a session in an environment with this hash function and header -/
-theorem round_some (H : HashFn) (rx : Rx) (B : Bytes) (th : Hdr) (limit : Int) (frag : Nat) (file : Bytes) (valid : List Int)
+theorem round_some (H : HashFn) (rx : Rx) (B : Bytes) (th : Hdr) (limit : Int) (frag : Nat) (cut : Option Nat) (file : Bytes) (valid : List Int)
     (r : String) (f : Bytes) (v : List Int) (ok : Bool)
-    (h : Update.round H rx B th limit frag file valid = (r, some (f, v, ok))) :
+    (h : Update.round H rx B th limit frag cut file valid = (r, some (f, v, ok))) :
     ∃ ridx lines frags, f = (session (envOf H rx th ridx) file valid lines frags).2.2.file ∧
       v = (session (envOf H rx th ridx) file valid lines frags).2.2.valid := by
   unfold Update.round at h
@@ -133,28 +133,28 @@ theorem round_some (H : HashFn) (rx : Rx) (B : Bytes) (th : Hdr) (limit : Int) (
       rw [hc] at h
       simp only at h
       by_cases ha : accepted (session { H := H, rx := rx, hdr := th, ridx := mkRidx (reqOf th limit valid).index 0 } file valid
-          (respond B rs).1 (pieces frag (respond B rs).2)).1 (respond B rs).1 = true
+          (respond B rs).1 (pieces frag (cutBody cut (respond B rs).2))).1 (respond B rs).1 = true
       · simp only [ha, not_true_eq_false, ↓reduceIte, Prod.mk.injEq, Option.some.injEq] at h
         exact ⟨_, _, _, h.2.1.symm, h.2.2.1.symm⟩
       · simp [ha] at h
 
 /-- **one round of the fetch loop** (any response, any fragment size, any regex answers): valid chunks stay valid and
 present, newly valid ones are present -/
-theorem round_sound (H : HashFn) (rx : Rx) (B : Bytes) (th : Hdr) (limit : Int) (frag : Nat) (file : Bytes) (valid : List Int)
+theorem round_sound (H : HashFn) (rx : Rx) (B : Bytes) (th : Hdr) (limit : Int) (frag : Nat) (cut : Option Nat) (file : Bytes) (valid : List Int)
     (hd : Disj (envOf H rx th [])) (hok : AllOk (envOf H rx th []) file valid)
     (r : String) (f : Bytes) (v : List Int) (ok : Bool)
-    (h : Update.round H rx B th limit frag file valid = (r, some (f, v, ok))) :
+    (h : Update.round H rx B th limit frag cut file valid = (r, some (f, v, ok))) :
     AllOk (envOf H rx th []) f v ∧ (∀ k, valid.getD k 0 = 1 → v.getD k 0 = 1) := by
-  obtain ⟨ridx, lines, frags, rfl, rfl⟩ := round_some H rx B th limit frag file valid r f v ok h
+  obtain ⟨ridx, lines, frags, rfl, rfl⟩ := round_some H rx B th limit frag cut file valid r f v ok h
   have := session_sound (envOf H rx th ridx) ((disj_ridx H rx th [] ridx).mp hd) file valid lines frags
     ((allOk_ridx H rx th [] ridx file valid).mp hok)
   exact ⟨(allOk_ridx H rx th ridx [] _ _).mp this.1, this.2⟩
 
 /-- **the fetch loop**: by induction over the rounds -/
-theorem loop_sound (H : HashFn) (rx : Rx) (B : Bytes) (th : Hdr) (limit : Int) (frag : Nat)
+theorem loop_sound (H : HashFn) (rx : Rx) (B : Bytes) (th : Hdr) (limit : Int) (frag : Nat) (drop : Option (Nat × Nat))
     (hd : Disj (envOf H rx th [])) : ∀ (fuel : Nat) (file : Bytes) (valid : List Int) (reqs : List String) (n : Nat),
     AllOk (envOf H rx th []) file valid →
-    let out := Update.loop H rx B th limit frag fuel file valid reqs n
+    let out := Update.loop H rx B th limit frag drop fuel file valid reqs n
     AllOk (envOf H rx th []) out.1 out.2.1 ∧ (∀ k, valid.getD k 0 = 1 → out.2.1.getD k 0 = 1) ∧
     (out.2.2.2.2 = none → countEq out.2.1 0 = 0)
   | 0, file, valid, reqs, n, hok => by
@@ -171,11 +171,11 @@ theorem loop_sound (H : HashFn) (rx : Rx) (B : Bytes) (th : Hdr) (limit : Int) (
     · split
       · exact ⟨hok, fun _ h => h, fun h => by simp at h⟩
       · rename_i r f v heq
-        have := round_sound H rx B th limit frag file valid hd hok r f v false heq
+        have := round_sound H rx B th limit frag _ file valid hd hok r f v false heq
         exact ⟨this.1, this.2, fun h => by simp at h⟩
       · rename_i r f v heq
-        have hr := round_sound H rx B th limit frag file valid hd hok r f v true heq
-        have ih := loop_sound H rx B th limit frag hd fuel f v (r :: reqs) (n + 1) hr.1
+        have hr := round_sound H rx B th limit frag _ file valid hd hok r f v true heq
+        have ih := loop_sound H rx B th limit frag drop hd fuel f v (r :: reqs) (n + 1) hr.1
         exact ⟨ih.1, fun k hk => ih.2.1 k (hr.2 k hk), ih.2.2⟩
 
 /-! ### non-vacuity (tests on a concrete instance, labelled as tests) -/
